@@ -16,6 +16,7 @@ type Config struct {
 	InitMeta uint32 `json:"meta,omitempty"`
 	Prealloc bool   `json:"prealloc,omitempty"`
 	SyncFull bool   `json:"syncfull,omitempty"`
+	SyncNone bool   `json:"syncnone,omitempty"` // Options.Sync = SyncNone (never in crash checks)
 }
 
 func (c Config) MaxSize() uint64 { return uint64(c.MaxPages) * uint64(c.PageSize) }
